@@ -14,7 +14,7 @@ CONSTANTS World,      \* prepared world the behaviours start from (0, 1, 2)
 VARIABLE ph           \* [r, s, m, v]: round, stage, last (message, validator) that submitted evidence in this round
 \* cfg files cannot hold tuples/functions
 ShareFn == <<3, 1, 1, 1>>          \* total 6: {1,2} holds exactly 2/3, {2,3,4} is one short
-InitMC == InitW(World) /\ ph = [r |-> 1, s |-> 0, m |-> 0, v |-> 0]
+InitMC == InitW(World) /\ ph = [r |-> 1, s |-> 0, m |-> 0, v |-> 0, sk |-> 0]     \* sk: ids consumed by replaced upload messages
 Ofs == DOMAIN msgs \cup {key[1] : key \in DOMAIN txs}
 Stage(s) == ph.s <= s /\ ph' = [ph EXCEPT !.s = s]
 EvidenceMC ==
@@ -25,13 +25,14 @@ EvidenceMC ==
         \/ \E of \in Ofs, k \in 0..KMax, corr \in Corrs, st \in Sts, n \in Ns :
              /\ "tx" \in Ts
              /\ CanBuild(of, k, corr)
-             /\ (of \in DOMAIN msgs /\ msgs[of].kind = "usc" => k = 1)
+             /\ (of \in DOMAIN msgs /\ IsUsc(msgs[of].kind) => k = 1)
              /\ (corr # "none" => k = 1 /\ of = m)        \* one corrupted variant per message is enough for the design
              /\ Evidence(v, m, "tx", of, k, corr, st, n)
 NextMC ==
-  \/ \E kind \in EKinds : Stage(0) /\ Enqueue(kind)
+  \/ \E kind \in EKinds : /\ ph.s <= 0 /\ Enqueue(kind)
+                           /\ ph' = [ph EXCEPT !.s = 0, !.sk = IF kind = "uscn" /\ CanEnqueue(kind) THEN @ + 1 ELSE @]
   \/ \E v \in Signers, m \in DOMAIN msgs : Stage(1) /\ Len(msgs[m].sigs) < KMax /\ Sign(v, m)
   \/ EvidenceMC
-  \/ ph.r <= MaxRounds /\ EndBlock /\ ph' = [r |-> ph.r + 1, s |-> 0, m |-> 0, v |-> 0]
-Constr == nextId <= MaxId + 1 /\ Cardinality(DOMAIN txs) <= MaxTx /\ ph.r <= MaxRounds
+  \/ ph.r <= MaxRounds /\ EndBlock /\ ph' = [r |-> ph.r + 1, s |-> 0, m |-> 0, v |-> 0, sk |-> ph.sk]
+Constr == nextId <= MaxId + 1 + ph.sk /\ Cardinality(DOMAIN txs) <= MaxTx /\ ph.r <= MaxRounds
 =============================================================================
